@@ -14,6 +14,9 @@ def run(ctx, pid):
         c.prefix = pid + c.prefix[3:]
         ex, obs = add_to_ctx(ctx, c, S.SCAN_CALLEES)
         n += len(obs)
+    from ..pyvc import conformance
+
+    conformance.add_to_ctx(ctx, ["AlignedArrays.last", "generic_aggregate", "get_indexer"])
     return (f"scan_binary_op (both modes, right operand a reduced or a scanned block) and concatenate: {n} obligations "
             "(result = right block combined with the carried value of its own group only; carried state = last valid value per code of left ++ result; "
             "result handed on iff the right operand is a scanned block).")
